@@ -6,6 +6,7 @@ require (
 	github.com/anishathalye/porcupine v1.3.0
 	github.com/dapr/kit v0.0.0
 	github.com/spiffe/go-spiffe/v2 v2.1.7
+	golang.org/x/crypto v0.24.0
 )
 
 require (
@@ -14,7 +15,6 @@ require (
 	github.com/sirupsen/logrus v1.9.3 // indirect
 	github.com/tidwall/transform v0.0.0-20201103190739-32f242e2dbde // indirect
 	github.com/zeebo/errs v1.3.0 // indirect
-	golang.org/x/crypto v0.24.0 // indirect
 	golang.org/x/exp v0.0.0-20231006140011-7918f672742d // indirect
 	golang.org/x/sys v0.21.0 // indirect
 	k8s.io/utils v0.0.0-20230726121419-3b25d923346b // indirect
